@@ -5,7 +5,7 @@ sid, pid, det, note = sys.argv[1], sys.argv[2], sys.argv[3], sys.argv[4]
 d = "/verif/seeded/%s" % sid
 readme = open(os.path.join(d, "README.md")).read()
 confirm = ""
-for l in open("/tmp/confirm_all.log"):
+for l in open("/verif/seeded/confirm_all.log"):
     if ("seed=seed-%s " % sid) in l:
         confirm = l.strip()
 meta = {
